@@ -163,6 +163,7 @@ func run(c *lib.Ctx) {
 	m := &monitor{c: c, deadlocks: map[string]int{}, perDirAcc: map[string]int{}, perDirRej: map[string]int{},
 		viol: map[string]*violBucket{}, samples: map[string][]sampleCand{}, reps: map[string][]*Case{}}
 	m.tParkMs.Store(1500)
+	defer c.Floor("accepted_proxy_blocks_naming_a_peer_with_health_check", 5)
 	defer m.flushSamples()
 	defer m.flushViolations()
 
@@ -1144,6 +1145,9 @@ func (m *monitor) judgeOne(ds *dirState, k *Case, r *caseRes) {
 	}
 	if len(k.Lines) > 0 {
 		c.Count("cases_with_sub_block", 1)
+		if t := k.Key(); k.Dir == "proxy" && r1.Acc && strings.Contains(t, "127.0.0.1:1") && strings.Contains(t, "health_check") {
+			c.Count("accepted_proxy_blocks_naming_a_peer_with_health_check", 1)
+		}
 	}
 	switch {
 	case r1.Acc && len(k.Lines) == 2:
